@@ -549,12 +549,10 @@ double Find_Root(std::function<double(double)> func, double xLeft, double xRight
 			double f3 = func(x3);
 			// New point
 			double x4 = x3 + (x3 - x1) * Sign(f1 - f2) * f3 / sqrt(f3 * f3 - f1 * f2);
-			// Check if we found the root
-			if(fabs(x4 - result) < xAccuracy)
-				return x4;
 			// Prepare next iteration
-			result	  = x4;
-			double f4 = func(x4);
+			double previous = result;
+			result			= x4;
+			double f4		= func(x4);
 			if(f4 == 0.0)
 				return result;
 			// a) x3 and x4 bracket the root
@@ -582,6 +580,11 @@ double Find_Root(std::function<double(double)> func, double xLeft, double xRight
 				std::cerr << "Error in libphysica::Find_Root(). Ridder's method does not reach the root." << std::endl;
 				std::exit(EXIT_FAILURE);
 			}
+			// Check if we found the root: successive estimates agree, and x4 is one end of the new bracket, which still contains the sign change
+			// (a bracket cannot become narrower than the spacing of doubles at the root)
+			const double resolution = std::max(xAccuracy, 4.0 * std::numeric_limits<double>::epsilon() * std::max(fabs(x1), fabs(x2)));
+			if(fabs(x4 - previous) < resolution && fabs(x2 - x1) < resolution)
+				return x4;
 		}
 		std::cout << "Warning in libphysica::Find_Root(): Iterations exceed the maximum. Final value f(" << result << ")=" << func(result) << std::endl;
 		return result;
